@@ -1635,6 +1635,53 @@ def rw_zip_to_index(func, k):
     return True
 
 
+def rw_zip_mapped(func, k):
+    """for a, b in zip(S, [E(v) for v in S]): B      ->      for a in S: B[b := E(a)]
+    (S and E pure; b is read only; nothing E reads is stored or mutated in B - the values E(a) are then the ones the list held)"""
+    sites = []
+    for n in ast.walk(func):
+        if not (isinstance(n, (ast.For, ast.comprehension)) and isinstance(n.iter, ast.Call) and isinstance(n.iter.func, ast.Name) and n.iter.func.id == 'zip' and len(n.iter.args) == 2
+                and not n.iter.keywords and isinstance(n.target, ast.Tuple) and len(n.target.elts) == 2 and all(isinstance(t, ast.Name) for t in n.target.elts)):
+            continue
+        S, M = n.iter.args
+        if not (isinstance(M, ast.ListComp) and len(M.generators) == 1 and not M.generators[0].ifs and isinstance(M.generators[0].target, ast.Name)
+                and ast.dump(M.generators[0].iter) == ast.dump(S) and _is_pure(S) and _is_pure(M.elt)):
+            continue
+        sites.append(n)
+    if k >= len(sites):
+        return False
+    g = sites[k]
+    par = parents_of(func)
+    owner = par.get(g) if isinstance(g, ast.comprehension) else g
+    a, b = g.target.elts[0].id, g.target.elts[1].id
+    S, M = g.iter.args
+    v = M.generators[0].target.id
+    body_nodes = [y for st in (owner.body + owner.orelse if isinstance(owner, ast.For) else [owner]) for y in ast.walk(st)]
+    body_nodes = [y for y in body_nodes if not any(y is z for z in ast.walk(g.iter)) and not any(y is z for z in ast.walk(g.target))]
+    reads = (_roots(M.elt) | _roots(S)) - {v}
+    for y in body_nodes:
+        if isinstance(y, ast.Name) and isinstance(y.ctx, (ast.Store, ast.Del)) and (y.id in (a, b) or y.id in reads):
+            return True
+        if isinstance(y, (ast.Subscript, ast.Attribute)) and isinstance(y.ctx, (ast.Store, ast.Del)) and _roots(y.value) & reads:
+            return True
+        if isinstance(y, ast.Call) and isinstance(y.func, ast.Attribute) and y.func.attr in MUTATORS and _roots(y.func.value) & reads:
+            return True
+    if isinstance(g, ast.For):
+        inside = {id(y) for y in ast.walk(g)}
+        if not _free_loop_name(func, b, inside, par):
+            return True
+    for y in list(body_nodes):
+        if isinstance(y, ast.Name) and y.id == b and isinstance(y.ctx, ast.Load):
+            e2 = copy.deepcopy(M.elt)
+            for w in list(ast.walk(e2)):
+                if isinstance(w, ast.Name) and w.id == v:
+                    w.id = a
+            replace_node(owner, y, fix(e2, y))
+    g.target = fix(ast.Name(id=a, ctx=ast.Store()), g.target)
+    g.iter = S
+    return True
+
+
 def rw_zip_collected(func, k):
     """L = [] ; for x in S: L.append(E(x))   ...   for x2, y in zip(S, L): B      ->      ... for x2 in S: B[y := E(x2)]
     (L holds E(x) for every x of S in order; S and the operands of E unchanged in between; y only read)"""
@@ -3352,7 +3399,7 @@ def rw_inline_helper(func, k):
     return True
 
 
-GUIDED = [rw_zip_collected, rw_zip_to_index, rw_inline_helper, rw_extract_temp, rw_flatten_comp_filter, rw_first_of_concat, rw_split_tuple_assign, rw_augcomp_to_loop, rw_len_zero, rw_bool_ifexp, rw_singleton_comp, rw_ndenumerate_value, rw_flat_to_ndenumerate, rw_slice_zero, rw_flip_compare, rw_keyword_to_positional, rw_fstring_to_percent, rw_np_all_any, rw_range_min_guard, rw_membership_container, rw_drop_default_arg, rw_unpack_first, rw_use_alias, rw_ravel_flatten, rw_last_appended, rw_pass_branch, rw_dictcomp_to_loop, rw_none_flag, rw_argcomp_to_loop, rw_hoist_return, rw_get_none, rw_else_after_exit_wrap, rw_else_after_exit_unwrap, rw_comp_to_loop, rw_loop_to_comp, rw_not_compare, rw_demorgan, rw_swap_branches, rw_merge_nested_if, rw_split_and_if, rw_guard_to_swapped_else, rw_swapped_else_to_guard, rw_drop_tail_return, rw_add_tail_return, rw_element_to_index_loop, rw_fuse_loops, rw_late_publication, rw_drop_tail_continue, rw_items_loop, rw_filter_loop, rw_loop_to_update, rw_is_false, rw_hoist_common_tail, rw_sink_common_tail, rw_try_tail_out, rw_try_tail_in, rw_genexp_loop, rw_guarded_subscript_get, rw_update_to_loop, rw_star_list, rw_filter_none, rw_extend_literal, rw_unpack_name, rw_tolist_index, rw_fuse_nested_comp, rw_split_elif_after_exit, rw_join_elif_after_exit, rw_np_synonym, rw_append_augadd, rw_list_call_to_comp, rw_last_is_appended, rw_move_append, rw_append_comp_to_loop, rw_split_append_concat, rw_enumerate_to_index, rw_subscripted_literal, rw_extend_to_loop, rw_comp_over_collected, rw_tail_pass_to_continue, rw_split_or_exit, rw_merge_exit_ifs, rw_unroll_const_loop, rw_drop_noop_pass, rw_ifexp_to_if, rw_if_to_ifexp, rw_bool_to_if, rw_kwargs_default, rw_trailing_return, rw_enumerate, rw_return_temp]
+GUIDED = [rw_zip_collected, rw_zip_mapped, rw_zip_to_index, rw_inline_helper, rw_extract_temp, rw_flatten_comp_filter, rw_first_of_concat, rw_split_tuple_assign, rw_augcomp_to_loop, rw_len_zero, rw_bool_ifexp, rw_singleton_comp, rw_ndenumerate_value, rw_flat_to_ndenumerate, rw_slice_zero, rw_flip_compare, rw_keyword_to_positional, rw_fstring_to_percent, rw_np_all_any, rw_range_min_guard, rw_membership_container, rw_drop_default_arg, rw_unpack_first, rw_use_alias, rw_ravel_flatten, rw_last_appended, rw_pass_branch, rw_dictcomp_to_loop, rw_none_flag, rw_argcomp_to_loop, rw_hoist_return, rw_get_none, rw_else_after_exit_wrap, rw_else_after_exit_unwrap, rw_comp_to_loop, rw_loop_to_comp, rw_not_compare, rw_demorgan, rw_swap_branches, rw_merge_nested_if, rw_split_and_if, rw_guard_to_swapped_else, rw_swapped_else_to_guard, rw_drop_tail_return, rw_add_tail_return, rw_element_to_index_loop, rw_fuse_loops, rw_late_publication, rw_drop_tail_continue, rw_items_loop, rw_filter_loop, rw_loop_to_update, rw_is_false, rw_hoist_common_tail, rw_sink_common_tail, rw_try_tail_out, rw_try_tail_in, rw_genexp_loop, rw_guarded_subscript_get, rw_update_to_loop, rw_star_list, rw_filter_none, rw_extend_literal, rw_unpack_name, rw_tolist_index, rw_fuse_nested_comp, rw_split_elif_after_exit, rw_join_elif_after_exit, rw_np_synonym, rw_append_augadd, rw_list_call_to_comp, rw_last_is_appended, rw_move_append, rw_append_comp_to_loop, rw_split_append_concat, rw_enumerate_to_index, rw_subscripted_literal, rw_extend_to_loop, rw_comp_over_collected, rw_tail_pass_to_continue, rw_split_or_exit, rw_merge_exit_ifs, rw_unroll_const_loop, rw_drop_noop_pass, rw_ifexp_to_if, rw_if_to_ifexp, rw_bool_to_if, rw_kwargs_default, rw_trailing_return, rw_enumerate, rw_return_temp]
 
 
 def _clone(node):
